@@ -8,6 +8,7 @@ t = open(os.path.join(here, 'TEMPLATE.txt')).read()
 extra = open(os.path.join(here, 'EXTRA.txt')).read()
 props = {json.loads(l)['id']: json.loads(l) for l in open('/verif/properties.jsonl')}
 avoid = []
+files = set()
 for d in sorted(glob.glob(f'/verif/seeded/{pid}-*/')):
     try:
         m = json.load(open(d + 'meta.json'))
@@ -15,9 +16,13 @@ for d in sorted(glob.glob(f'/verif/seeded/{pid}-*/')):
         continue
     s = (m.get('summary') or '').replace('\n', ' ')
     avoid.append(s[:260])
+    for f in m.get('files_changed') or []:
+        files.add(str(f).split('/tmp/')[-1].split('/', 1)[-1] if str(f).startswith('/tmp/') else str(f))
 wt = f'/tmp/wt{rnd}-{pid}'
 p = t.replace('@@PROPERTY_JSON@@', json.dumps(props[pid], indent=1)).replace('@@WT@@', wt).replace('@@ID@@', pid)
 p += extra.replace('@@AVOID@@', '; '.join(f'({i+1}) {x}' for i, x in enumerate(avoid)))
+if files:
+    p += "\nFiles already modified by those earlier breaks: " + ", ".join(sorted(files)) + ". If the property can be broken from a file that is NOT in this list (another module of the same crate, a helper, configuration/option handling, the glue code in the `penguin` crate that calls into the library, ...), prefer that.\n"
 os.makedirs('/tmp/seedprompts', exist_ok=True)
 open(f'/tmp/seedprompts/{pid}-r{rnd}.txt', 'w').write(p)
 print(wt, len(avoid))
